@@ -542,6 +542,8 @@ pub fn run_property(id: &str, tier: Tier) -> i32 {
         "C10" => return crate::faults::run_c10(tier),
         "C08" => return crate::c08::run_c08(tier),
         "C09" => return crate::c09::run_c09(tier),
+        "C17" => return crate::c17::run_c17(tier),
+        "C16" => return crate::c16::run_c16(tier),
         _ => {}
     }
     eprintln!("unknown property {id}");
@@ -629,6 +631,8 @@ pub fn replay_file(path: &str) -> i32 {
         e if e.starts_with("C10-") => crate::faults::replay(e, &v["case"]),
         e if e.starts_with("C08-") => crate::c08::replay(e, &v["case"]),
         e if e.starts_with("C09-") => crate::c09::replay(e, &v["case"]),
+        e if e.starts_with("C17-") => crate::c17::replay(e, &v["case"]),
+        e if e.starts_with("C16-") && !e.ends_with("-enumerated") => crate::c16::replay(e, &v["case"]),
         _ => None,
     };
     if let Some(r) = simple {
@@ -659,6 +663,9 @@ pub fn replay_file(path: &str) -> i32 {
 pub fn subcommand(name: &str, args: &[String]) -> i32 {
     if name == "child-crash" {
         return crate::c09::child_main(args);
+    }
+    if name == "gen-fixtures" {
+        return crate::c16::gen_fixtures();
     }
     eprintln!("unknown sub-command {name}");
     2
